@@ -6,6 +6,7 @@ import (
 
 	"github.com/trustbloc/sidetree-go/pkg/api/operation"
 	"github.com/trustbloc/sidetree-go/pkg/api/protocol"
+	"github.com/trustbloc/sidetree-go/pkg/document"
 	"github.com/trustbloc/sidetree-go/pkg/docutil"
 	"github.com/trustbloc/sidetree-go/pkg/versions/1_0/doctransformer/didtransformer"
 
@@ -34,14 +35,33 @@ func (o *Observer) resolve(st *Step) {
 	base, incPub, incUnpub, withCtx, published := st.Opts&1 != 0, st.Opts&2 != 0, st.Opts&4 != 0, st.Opts&8 != 0, st.Opts&16 != 0
 	var methodCtx []string
 	if withCtx {
+		// two method contexts unless bits 6-8 ask for another number (1..7)
 		methodCtx = []string{"https://w3id.org/did-method/sim/v1", "https://example.com/ctx/2"}
+		if n := (st.Opts >> 6) & 7; n > 0 {
+			methodCtx = nil
+			for i := 0; i < n; i++ {
+				methodCtx = append(methodCtx, fmt.Sprintf("https://example.com/ctx/%d", i+1))
+			}
+		}
 	}
-	opts := []didtransformer.Option{didtransformer.WithBase(base), didtransformer.WithIncludePublishedOperations(incPub),
-		didtransformer.WithIncludeUnpublishedOperations(incUnpub)}
-	if withCtx {
-		opts = append(opts, didtransformer.WithMethodContext(methodCtx))
+	// one transformer per option set for the whole run, as a deployment holds one per protocol version: whatever a transformer
+	// keeps between calls is shared by every document it transforms
+	trKey := st.Opts & (1 | 2 | 4 | 8 | 7<<6)
+	tr := w.transformers[trKey]
+	if tr == nil {
+		opts := []didtransformer.Option{didtransformer.WithBase(base), didtransformer.WithIncludePublishedOperations(incPub),
+			didtransformer.WithIncludeUnpublishedOperations(incUnpub)}
+		if withCtx {
+			opts = append(opts, didtransformer.WithMethodContext(methodCtx))
+		}
+		tr = didtransformer.New(opts...)
+		if w.transformers == nil {
+			w.transformers = map[int]*didtransformer.Transformer{}
+		}
+		w.transformers[trKey] = tr
+	} else {
+		w.T.Probe("transformer_reused")
 	}
-	tr := didtransformer.New(opts...)
 
 	// operation lists: the real anchored operations of the DID plus synthetic ones with arbitrary (time, number) pairs
 	used := map[[2]uint64]bool{}
@@ -129,6 +149,10 @@ func (o *Observer) resolve(st *Step) {
 		w.violate("C18/transform-failed", "", "TransformDocument failed on a document built from validated patches: %v", err)
 		return
 	}
+	// the caller keeps the result: it must still say the same at the end of the run, after the transformer served other documents
+	if snap, serr := json.Marshal(res); serr == nil {
+		w.retainedRes = append(w.retainedRes, retainedResolution{label: fmt.Sprintf("%s opts=%d step=%d", id, st.Opts, w.step), res: res, snap: string(snap)})
+	}
 	gotDoc := ref.Norm(map[string]any(res.Document)).(map[string]any)
 	w.T.Mark(fmt.Sprintf("res:%d:%d:%d:%d", st.Opts, len(ref.View(model.Doc, ref.MPublicKey)), len(ref.View(model.Doc, ref.MService)), len(pub)))
 	if !ref.Equal(gotDoc, wantDoc) {
@@ -185,4 +209,22 @@ func firstDiffMember(a, b map[string]any) string {
 		}
 	}
 	return "?"
+}
+
+// retainedResolution is a resolution result a caller still holds, with what it said when it was returned.
+type retainedResolution struct {
+	label string
+	res   *document.ResolutionResult
+	snap  string
+}
+
+// checkRetainedResolutions: results returned earlier are values, not views of the transformer's state (C18).
+func (w *World) checkRetainedResolutions() {
+	for _, rr := range w.retainedRes {
+		now, err := json.Marshal(rr.res)
+		w.T.Count("retained_results_rechecked", 1)
+		if err != nil || string(now) != rr.snap {
+			w.violate("C18/result-changed-later", "", "%s: the result returned earlier reads differently after later transformations: %s", rr.label, diffHint(rr.snap, string(now)))
+		}
+	}
 }
